@@ -13,6 +13,7 @@ from spacepackets.cfdp.pdu.file_directive import (
 )
 from spacepackets.cfdp.conf import PduConfig
 from spacepackets.crc import CRC16_CCITT_FUNC
+from spacepackets.exceptions import BytesTooShortError
 
 
 def get_max_seg_reqs_for_max_packet_size_and_pdu_cfg(
@@ -248,6 +249,16 @@ class NakPdu(AbstractFileDirectiveBase):
         nak_pdu = cls.__empty()
         nak_pdu.pdu_file_directive = FileDirectivePduBase.unpack(raw_packet=data)
         nak_pdu.pdu_file_directive.verify_length_and_checksum(data)
+        if len(data) > nak_pdu.packet_len:
+            raise ValueError(
+                f"passed data with length {len(data)} longer than declared NAK PDU"
+                f" length {nak_pdu.packet_len}"
+            )
+        # Only parse the declared PDU without the CRC trailer.
+        end_of_params = nak_pdu.packet_len
+        if nak_pdu.pdu_file_directive.crc_flag == CrcFlag.WITH_CRC:
+            end_of_params -= 2
+        data = data[:end_of_params]
         if nak_pdu.pdu_file_directive.directive_type != DirectiveType.NAK_PDU:
             raise ValueError(
                 f"invalid PDU directive type for NAK PDU: "
@@ -258,6 +269,8 @@ class NakPdu(AbstractFileDirectiveBase):
             struct_arg_tuple = ("!I", 4)
         else:
             struct_arg_tuple = ("!Q", 8)
+        if current_idx + 2 * struct_arg_tuple[1] > len(data):
+            raise BytesTooShortError(current_idx + 2 * struct_arg_tuple[1], len(data))
         nak_pdu.start_of_scope = struct.unpack(
             struct_arg_tuple[0],
             data[current_idx : current_idx + struct_arg_tuple[1]],
